@@ -323,7 +323,7 @@ def get_closest_vertices(faces_subsets, vertices):
     inds_subsets = [np.unique(v) for v in faces_subsets]
     closest_verts_list = []
     if nparts > 1:
-        connected = [np.min(inds_subsets[0])]
+        connected = [0]
         while len(connected) < nparts:
             prev_min = float("inf")
             for i in connected:
